@@ -24,8 +24,9 @@ import (
 const (
 	regTimeout = 1500 * time.Millisecond
 	reqTimeout = 1 * time.Second
-	// how long a process nri stopped or dropped may take to disappear (typical: < 1 ms)
-	deathBound = 10 * time.Second
+	// how long a process nri stopped or dropped may take to disappear (typical: < 1 ms, the
+	// kill is synchronous except after a drop, where a goroutine does it: measured ≤ 1 ms)
+	deathBound = 2 * time.Second
 )
 
 var (
